@@ -163,7 +163,10 @@ def run(c):
         dres = list(ex.map(djob, range(len(cfgs))))
     recs = []
     for k, a, b in dres:
-        same = 1 if (a[0] == 0 and b[0] == 0 and a[1] > 0 and a[2] == b[2] and a[3] == b[3]) else 0
+        same = 1 if (a[0] == 0 and b[0] == 0 and a[1] > 0 and a[2] == b[2]) else 0
+        if same and a[3] != b[3]:
+            c.model_drift("one-thread runs of %s wrote identical snapshots but took different event orders "
+                          "(the one-thread scheduler is expected to be deterministic)" % cfgs[k])
         recs.append({"e": "rerun", "same": same})
         c.add_case(("rerun", k), nontrivial=True)
     p = os.path.join(rd, "rerun.ndjson")
